@@ -572,7 +572,8 @@ func (s *AbsfsNFS) CreateWithContext(ctx context.Context, dir *NFSNode, name str
 		return nil, fmt.Errorf("create: failed to sanitize path: %w", err)
 	}
 
-	f, err := s.fs.Create(path)
+	// fs.Create would truncate an existing file; O_EXCL reports it (os.ErrExist) untouched
+	f, err := s.fs.OpenFile(path, os.O_CREATE|os.O_EXCL|os.O_RDWR, 0644)
 	if err != nil {
 		return nil, fmt.Errorf("create: failed to create %s: %w", path, err)
 	}
